@@ -71,6 +71,7 @@ pub fn length_sweep(ctx: &mut Ctx) {
     provenance_probes(ctx);
     nested_same_kind_probes(ctx);
     every_operator_as_element_probes(ctx);
+    hash_twin_probes(ctx);
     stale_output_probes(ctx);
     if prop == "C02" || prop == "C06" || prop == "C04" {
         return;
@@ -445,7 +446,7 @@ pub fn lead_byte_probes(ctx: &mut Ctx) {
         if !ctx.mine() {
             continue;
         }
-        for s in [format!("a{}b", c), format!("{}", c), format!("{}{}", c, c), format!("{}b{}", c, c)] {
+        for s in [format!("a{}b", c), format!("{}", c), format!("{}{}", c, c), format!("{}b{}", c, c), format!("0{}", c), format!("0{}1", c), format!("1{}", c), format!(" 0{}", c), format!("-{}", c)] {
             ctx.edge();
             let ds = json!({ "s": s, "c": c.to_string() });
             let n = s.chars().count() as i64;
@@ -478,6 +479,12 @@ pub fn lead_byte_probes(ctx: &mut Ctx) {
                 "C13" => {
                     ctx.check("lead-bytes:map", &json!({"map": [[s, c.to_string()], {"cat": [{"var": ""}, "|"]}]}), &null);
                 }
+                "C10" => {
+                    for k in ["-", "*", "+", "max", "min", "/", "%"] {
+                        ctx.check("lead-bytes:number", &al::op(k, vec![json!(s), json!(1)]), &null);
+                        ctx.check("lead-bytes:number", &al::op(k, vec![json!(2), json!({"var": "s"})]), &ds);
+                    }
+                }
                 "C15" => {
                     ctx.check("lead-bytes:in", &json!({"in": [{"var": "c"}, {"var": "s"}]}), &ds);
                     ctx.check("lead-bytes:in", &json!({"in": [format!("{}b", c), s]}), &null);
@@ -496,6 +503,8 @@ pub fn lead_byte_probes(ctx: &mut Ctx) {
                             ctx.check("lead-bytes:compare", &al::op(k, vec![json!({"var": "c"}), json!(format!("{}{}", t, c))]), &ds);
                         }
                         ctx.check("lead-bytes:compare:same", &al::op(k, vec![json!({"var": "s"}), json!(s)]), &ds);
+                        ctx.check("lead-bytes:compare:number", &al::op(k, vec![json!(s), json!(0)]), &null);
+                        ctx.check("lead-bytes:compare:number", &al::op(k, vec![json!(1), json!({"var": "s"})]), &ds);
                     }
                 }
                 _ => {}
@@ -1547,6 +1556,51 @@ pub fn every_operator_as_element_probes(ctx: &mut Ctx) {
                     for r in rules {
                         ctx.check("every-operator-as-element", &r, &d);
                     }
+                }
+            }
+        }
+    }
+}
+
+/// Texts that collide under common 32-bit hashes, used one right after the other on the same thread: numeric
+/// strings through every conversion, keys through every lookup (see `alphabet::hash_colliding_*`).
+pub fn hash_twin_probes(ctx: &mut Ctx) {
+    let prop = ctx.prop.clone();
+    let null = Value::Null;
+    if ["C07", "C08", "C09", "C10", "C15", "C16"].contains(&prop.as_str()) && ctx.mine() {
+        for round in 0..2 {
+            for (_h, a, b) in al::hash_colliding_numbers() {
+                let (a, b) = if round == 0 { (a, b) } else { (b, a) };
+                let (na, nb): (f64, f64) = (a.parse().unwrap(), b.parse().unwrap());
+                ctx.edge();
+                let rules: Vec<Value> = match prop.as_str() {
+                    "C07" => vec![json!({"==": [a, na]}), json!({"==": [b, nb]}), json!({"==": [b, na]}), json!({"!=": [a, nb]}), json!({"==": [[b], nb]})],
+                    "C08" => vec![json!({"===": [{"*": [a, 1]}, na]}), json!({"===": [{"*": [b, 1]}, nb]}), json!({"!==": [{"-": [b, 0]}, na]})],
+                    "C09" => vec![json!({"<=": [a, na]}), json!({"<=": [b, nb]}), json!({">=": [b, nb]}), json!({"<": [a, nb]}), json!({"<": [b, na]}), json!({"<": [0, b, nb]})],
+                    "C10" => vec![json!({"*": [a, 1]}), json!({"*": [b, 1]}), json!({"-": [b, a]}), json!({"max": [a, b]}), json!({"min": [b, a]}), json!({"+": [a, b]}), json!({"/": [b, 1]}), json!({"%": [b, 1000000]})],
+                    "C15" => vec![json!({"in": [a, [b]]}), json!({"in": [b, [a, b]]}), json!({"in": [a, b]}), json!({"merge": [a, [b]]})],
+                    _ => vec![json!({"cat": [a, "|", b]}), json!({"substr": [b, 0, 3]}), json!({"substr": [a, -2]})],
+                };
+                for r in rules {
+                    ctx.check("hash-colliding-numbers", &r, &null);
+                }
+            }
+        }
+    }
+    if ["C04", "C11", "C12", "C13", "C14", "C15"].contains(&prop.as_str()) && ctx.mine() {
+        for round in 0..2 {
+            for (_h, a, b) in al::hash_colliding_keys() {
+                let (a, b) = if round == 0 { (a, b) } else { (b, a) };
+                let d = json!({a: "under-a", b: {"x": "under-b"}, "o": {a: 1, b: 2}, "rows": [{a: 1}, {b: 2}]});
+                ctx.edge();
+                let rules: Vec<Value> = match prop.as_str() {
+                    "C12" => vec![json!({"missing": [a, b, "zz"]}), json!({"missing": [format!("o.{}", a), format!("o.{}", b), format!("{}.x", a), format!("{}.x", b)]}), json!({"missing_some": [2, [b, format!("{}.x", a)]]})],
+                    "C13" | "C14" => vec![json!({"map": [{"var": "rows"}, {"var": a}]}), json!({"map": [{"var": "rows"}, {"var": b}]}), json!({"filter": [{"var": "rows"}, {"var": b}]}), json!({"some": [{"var": "rows"}, {"var": a}]}), json!({"all": [{"var": "rows"}, {"var": b}]})],
+                    "C15" => vec![json!({"in": [a, [b, "x"]]}), json!({"in": [b, [b]]}), json!({"in": [a, {"cat": [b, a]}]}), json!({"in": [{a: 1}, [{b: 1}]]})],
+                    _ => vec![json!({"var": a}), json!({"var": b}), json!({"var": format!("{}.x", b)}), json!({"var": [format!("{}.x", a), "dflt"]}), json!({"var": format!("o.{}", a)}), json!({"var": format!("o.{}", b)}), json!({"cat": [{"var": a}, {"var": format!("o.{}", b)}]})],
+                };
+                for r in rules {
+                    ctx.check("hash-colliding-keys", &r, &d);
                 }
             }
         }
